@@ -141,13 +141,22 @@ func (f *memFile) Close() error {
 }
 
 func (f *memFile) Unlock() error {
-	if err := f.Close(); err != nil {
-		return err
+	// Releasing the lock and removing the lock file is one step: an opener that gets in between
+	// would take over an entry which is about to be removed under it.
+	fs := Mem.(*memFS)
+	fs.mu.Lock()
+	defer fs.mu.Unlock()
+	f.mu.Lock()
+	defer f.mu.Unlock()
+	if f.refs == 0 {
+		return os.ErrClosed
 	}
-	f.mu.RLock()
-	name := f.name
-	f.mu.RUnlock()
-	return Mem.Remove(name)
+	f.refs -= 1
+	if fs.files[f.name] != f {
+		return os.ErrNotExist
+	}
+	delete(fs.files, f.name)
+	return nil
 }
 
 func (f *memFile) ReadAt(p []byte, off int64) (int, error) {
